@@ -103,9 +103,10 @@ func RunModel(bin string, sc *Scenario, impl *ImplRun, checkSizes bool) (*ModelR
 		}
 		return "999999"
 	}
+	incarnation := map[int]int{} // a realm that is removed and added again starts its id counters anew
 	realmOf := func(recv int) int {
 		if r, ok := joined[recv]; ok {
-			return r
+			return r + 1000*incarnation[r]
 		}
 		return -1
 	}
@@ -129,23 +130,19 @@ func RunModel(bin string, sc *Scenario, impl *ImplRun, checkSizes bool) (*ModelR
 		if op.Kind == "join" && r.Failed == "" {
 			joined[op.Sess] = op.Realm
 		}
+		if op.Kind == "addrealm" && r.Failed == "" {
+			incarnation[op.Realm]++
+		}
 		try := func(oracle int) (map[int][]string, []int, *PubNamer, error) {
-			obs, sizes, err := p.Send(modelLine("try", &op, oracle))
+			line := ""
+			if op.Kind == "addrealm" {
+				line = "tryrm 999999" // adding a realm produces no output; committed below
+			} else {
+				line = modelLine("try", &op, oracle)
+			}
+			obs, sizes, err := p.Send(line)
 			if err != nil {
 				return nil, nil, nil, err
-			}
-			if op.Kind == "tick" { // virtual time passes in every realm
-				for j := range sc.Realms {
-					if j != op.Realm {
-						o2 := op
-						o2.Realm = j
-						more, _, err := p.Send(modelLine("try", &o2, oracle))
-						if err != nil {
-							return nil, nil, nil, err
-						}
-						obs = append(obs, more...)
-					}
-				}
 			}
 			nm := &PubNamer{toName: map[string]string{}, toID: map[string]string{}, n: namer.n}
 			for k, v := range namer.toName {
@@ -177,17 +174,14 @@ func RunModel(bin string, sc *Scenario, impl *ImplRun, checkSizes bool) (*ModelR
 				}
 			}
 		}
-		if _, _, err := p.Send(modelLine("do", &op, oracle)); err != nil {
-			return mr, &Mismatch{OpIndex: i, What: "model-error", Detail: err.Error()}, nil
+		doLine := ""
+		if op.Kind == "addrealm" {
+			doLine = realmLine(op.Realm, &sc.Realms[op.Realm], func(idx int) int64 { return modelSid(idx) })
+		} else {
+			doLine = modelLine("do", &op, oracle)
 		}
-		if op.Kind == "tick" {
-			for j := range sc.Realms {
-				if j != op.Realm {
-					o2 := op
-					o2.Realm = j
-					p.Send(modelLine("do", &o2, oracle))
-				}
-			}
+		if _, _, err := p.Send(doLine); err != nil {
+			return mr, &Mismatch{OpIndex: i, What: "model-error", Detail: err.Error()}, nil
 		}
 		*namer = *nm
 		mr.Canon = append(mr.Canon, canon)
@@ -196,7 +190,7 @@ func RunModel(bin string, sc *Scenario, impl *ImplRun, checkSizes bool) (*ModelR
 		if d := diffCanon(r.Canon, canon); d != "" {
 			return mr, &Mismatch{OpIndex: i, What: "observations", Detail: d}, nil
 		}
-		if checkSizes && r.Sizes != nil && fmt.Sprint(r.Sizes) != fmt.Sprint(sizes) {
+		if checkSizes && r.Sizes != nil && sizes != nil && fmt.Sprint(r.Sizes) != fmt.Sprint(sizes) {
 			return mr, &Mismatch{OpIndex: i, What: "sizes", Detail: fmt.Sprintf("impl %v model %v (realm clients, testaments; broker exact, prefix, wildcard, subscriptions, sessionSubIDSet, history; dealer exact, prefix, wildcard, registrations, calls, invocations, invocationByCall, calleeRegIDSet)", r.Sizes, sizes)}, nil
 		}
 	}
